@@ -50,6 +50,12 @@ class CallRule:
                 out = out.replace('$%d' % i, args[i - 1])
             return out
         new = rewrite_calls(text, self.head + r'\s*\(', fn)
+        # calls nested inside rewritten arguments: repeat until nothing changes
+        for _ in range(8):
+            again = rewrite_calls(new, self.head + r'\s*\(', fn)
+            if again == new:
+                break
+            new = again
         if self.kind == 'must' and cnt[0] != self.n:
             raise ExtractionBreak("lowering call-rule %r expected %s matches, fired %d" % (self.name, self.n, cnt[0]))
         if cnt[0]:
